@@ -390,6 +390,9 @@ func c04Run(env *core.Env, idx int) core.CaseResult {
 		o := gen.WorldOpts{NDocs: 1 + rng.Intn(4), Cyclic: true, Nested: rng.Intn(2) == 0, Chains: rng.Intn(2) == 0, HostileNames: rng.Intn(4) == 0,
 			Elements: 2 + rng.Intn(6), MaxDepth: 1 + rng.Intn(3), RefDensity: []float64{0.4, 0.6, 0.8}[rng.Intn(3)], HTTP: rng.Intn(3) == 0,
 			Dangling: []float64{0, 0.05}[rng.Intn(2)], IllTyped: []float64{0, 0.05}[rng.Intn(2)]}
+		if idx%5 == 2 {
+			o.HollowDoc = 0.1 // documents whose content is null
+		}
 		if rng.Intn(3) == 0 {
 			o.IDs = 1 + rng.Intn(5)
 			// relative-directory ids are a separate variant (open finding): 5 = "../up/" terminates, reldir is covered by the enumerated part
@@ -414,6 +417,9 @@ func c04Run(env *core.Env, idx int) core.CaseResult {
 	}
 	acyclic := in.Acyclic(starts)
 	res.Hash = core.HashOf(w.Docs)
+	if n := w.Features["fault.hollow-document"]; n > 0 {
+		res.Count("world-with-null-document", 1)
+	}
 	res.NonTrivial = !acyclic || withIDs || w.Features["fault.dangling-pointer"] > 0
 	desc["unfolding"] = U
 	desc["budget"] = budget
@@ -503,7 +509,7 @@ func c04Run(env *core.Env, idx int) core.CaseResult {
 }
 
 func init() {
-	floors := []string{"part.enumerated", "part.random", "graph.cyclic", "graph.acyclic", "returned-error", "returned-ok", "steps-observed"}
+	floors := []string{"part.enumerated", "part.random", "graph.cyclic", "graph.acyclic", "returned-error", "returned-ok", "steps-observed", "world-with-null-document"}
 	for _, e := range c04Entries {
 		floors = append(floors, "entry."+e)
 	}
